@@ -43,6 +43,13 @@ type c25Rule struct {
 	expDM                    *bool
 	trans                    []c25Trans
 	ncDays, ncNewer, abortDs *int64
+	nct                      []c25NCT
+}
+
+// NoncurrentVersionTransition
+type c25NCT struct {
+	days, newer *int64
+	class       string
 }
 type c25Obj struct {
 	key      string
@@ -51,15 +58,21 @@ type c25Obj struct {
 	lm       int64
 	etag     string
 	class    string
-	swap     bool
+	swap     bool // a concurrent PUT lands between the listing and the guarded call
 	swapEtag string
 	swapLm   int64
+	gone     bool // a concurrent DELETE lands there instead
 }
 type c25Ver struct {
 	key, id    string
 	latest, dm bool
 	lm, size   int64
 	tags       []c25Tag
+	etag       string
+	class      string
+	swap       bool // the id is reused by a new generation (null version overwritten in place)
+	swapEtag   string
+	swapLm     int64
 }
 type c25Upl struct {
 	key, id string
@@ -98,7 +111,13 @@ func c25Items(t string) []string {
 func c25ParseRule(t string) c25Rule {
 	f := strings.Split(t, "/")
 	r := c25Rule{enabled: f[0] == "1", shape: f[1], tags: c25Tags(f[3]), gt: c25OptI(f[4]), lt: c25OptI(f[5]),
-		expDays: c25OptI(f[6]), expDate: c25OptI(f[7]), ncDays: c25OptI(f[10]), ncNewer: c25OptI(f[11]), abortDs: c25OptI(f[12])}
+		expDays: c25OptI(f[6]), expDate: c25OptI(f[7]), ncDays: c25OptI(f[10]), ncNewer: c25OptI(f[11]), abortDs: c25OptI(f[13])}
+	if f[12] != "_" {
+		for _, x := range strings.Split(f[12], ",") {
+			p := strings.Split(x, ":")
+			r.nct = append(r.nct, c25NCT{c25OptI(p[0]), c25OptI(p[1]), untokBytes(p[2])})
+		}
+	}
 	if f[2] != "N" {
 		p := untokBytes(f[2][1:])
 		r.prefix = &p
@@ -118,7 +137,10 @@ func c25ParseRule(t string) c25Rule {
 func c25ParseObj(t string) *c25Obj {
 	f := strings.Split(t, "/")
 	o := &c25Obj{key: untokBytes(f[0]), size: c25I(f[1]), tags: c25Tags(f[2]), lm: c25I(f[3]), etag: untokBytes(f[4]), class: untokBytes(f[5])}
-	if f[6] != "N" {
+	switch {
+	case f[6] == "X":
+		o.gone = true
+	case f[6] != "N":
 		p := strings.Split(f[6], ":")
 		o.swap, o.swapEtag, o.swapLm = true, untokBytes(p[0]), c25I(p[1])
 	}
@@ -126,7 +148,13 @@ func c25ParseObj(t string) *c25Obj {
 }
 func c25ParseVer(t string) c25Ver {
 	f := strings.Split(t, "/")
-	return c25Ver{key: untokBytes(f[0]), id: untokBytes(f[1]), latest: f[2] == "1", dm: f[3] == "1", lm: c25I(f[4]), size: c25I(f[5]), tags: c25Tags(f[6])}
+	v := c25Ver{key: untokBytes(f[0]), id: untokBytes(f[1]), latest: f[2] == "1", dm: f[3] == "1", lm: c25I(f[4]), size: c25I(f[5]), tags: c25Tags(f[6]),
+		etag: untokBytes(f[7]), class: untokBytes(f[8])}
+	if f[9] != "N" {
+		p := strings.Split(f[9], ":")
+		v.swap, v.swapEtag, v.swapLm = true, untokBytes(p[0]), c25I(p[1])
+	}
+	return v
 }
 func c25ParseUpl(t string) c25Upl {
 	f := strings.Split(t, "/")
@@ -190,17 +218,24 @@ func c25Build(r c25Rule) storage.LifecycleRule {
 	if r.abortDs != nil {
 		out.AbortIncompleteMultipartUpload = &storage.LifecycleAbortIncompleteMultipartUpload{DaysAfterInitiation: c25I32(r.abortDs)}
 	}
+	for _, t := range r.nct {
+		out.NoncurrentVersionTransitions = append(out.NoncurrentVersionTransitions, storage.LifecycleNoncurrentVersionTransition{NoncurrentDays: c25I32(t.days), NewerNoncurrentVersions: c25I32(t.newer), StorageClass: t.class})
+	}
 	return out
 }
 
 // ---- recording in-memory storage the real reconciler runs against ----
+// Listings are paged: a page holds at most `page` entries (0: as many as the caller's MaxKeys), which a storage
+// is free to do; objects are kept sorted by key, uploads by (key, upload id), versions in the given order.
 type c25Double struct {
 	delegator.DelegatingStorage
 	config  *storage.BucketLifecycleConfiguration
 	objs    []*c25Obj
-	vers    []c25Ver
+	vers    []*c25Ver
 	upls    []c25Upl
+	page    int
 	actions []string
+	lists   int
 }
 
 var c25Bucket = storage.MustNewBucketName("bucket")
@@ -219,107 +254,210 @@ func c25ClassP(c string) *string {
 	}
 	return &c
 }
-func (d *c25Double) ListObjects(context.Context, storage.BucketName, storage.ListObjectsOptions) (*storage.ListBucketResult, error) {
+func (d *c25Double) cap(max int32) int {
+	c := int(max)
+	if c <= 0 {
+		c = 1000
+	}
+	if d.page > 0 && d.page < c {
+		c = d.page
+	}
+	return c
+}
+func (d *c25Double) ListObjects(_ context.Context, _ storage.BucketName, opts storage.ListObjectsOptions) (*storage.ListBucketResult, error) {
+	d.lists++
 	res := &storage.ListBucketResult{}
+	c := d.cap(opts.MaxKeys)
 	for _, o := range d.objs {
+		if opts.StartAfter != nil && !(o.key > *opts.StartAfter) {
+			continue
+		}
+		if len(res.Objects) == c {
+			res.IsTruncated = true
+			break
+		}
 		res.Objects = append(res.Objects, storage.Object{Key: storage.MustNewObjectKey(o.key), LastModified: c25Time(o.lm), ETag: o.etag,
 			Size: o.size, StorageClass: c25ClassP(o.class), Tags: c25TagMap(o.tags)})
 	}
 	return res, nil
 }
-func (d *c25Double) ListObjectVersions(context.Context, storage.BucketName, storage.ListObjectVersionsOptions) (*storage.ListObjectVersionsResult, error) {
+func (d *c25Double) ListObjectVersions(_ context.Context, _ storage.BucketName, opts storage.ListObjectVersionsOptions) (*storage.ListObjectVersionsResult, error) {
+	d.lists++
 	res := &storage.ListObjectVersionsResult{}
+	c := d.cap(opts.MaxKeys)
+	started := opts.KeyMarker == nil
 	for _, v := range d.vers {
-		e := "e"
+		if !started { // the markers name the last entry of the previous page
+			vm := ""
+			if opts.VersionIDMarker != nil {
+				vm = *opts.VersionIDMarker
+			}
+			if v.key == *opts.KeyMarker && v.id == vm {
+				started = true
+			}
+			continue
+		}
+		if len(res.Versions) == c {
+			res.IsTruncated = true
+			break
+		}
+		e := v.etag
 		res.Versions = append(res.Versions, storage.ObjectVersion{Key: storage.MustNewObjectKey(v.key), VersionID: v.id, IsDeleteMarker: v.dm,
-			IsLatest: v.latest, LastModified: c25Time(v.lm), Size: v.size, ETag: &e})
+			IsLatest: v.latest, LastModified: c25Time(v.lm), Size: v.size, ETag: &e, StorageClass: c25ClassP(v.class)})
+	}
+	if res.IsTruncated {
+		l := res.Versions[len(res.Versions)-1]
+		k := l.Key.String()
+		id := l.VersionID
+		res.NextKeyMarker, res.NextVersionIDMarker = &k, &id
 	}
 	return res, nil
 }
-func (d *c25Double) ListMultipartUploads(context.Context, storage.BucketName, storage.ListMultipartUploadsOptions) (*storage.ListMultipartUploadsResult, error) {
+func (d *c25Double) ListMultipartUploads(_ context.Context, _ storage.BucketName, opts storage.ListMultipartUploadsOptions) (*storage.ListMultipartUploadsResult, error) {
+	d.lists++
 	res := &storage.ListMultipartUploadsResult{}
+	c := d.cap(opts.MaxUploads)
 	for _, u := range d.upls {
+		if opts.KeyMarker != nil {
+			um := ""
+			if opts.UploadIdMarker != nil {
+				um = *opts.UploadIdMarker
+			}
+			if !(u.key > *opts.KeyMarker || (u.key == *opts.KeyMarker && u.id > um)) {
+				continue
+			}
+		}
+		if len(res.Uploads) == c {
+			res.IsTruncated = true
+			break
+		}
 		res.Uploads = append(res.Uploads, storage.Upload{Key: storage.MustNewObjectKey(u.key), UploadId: storage.MustNewUploadId(u.id), Initiated: c25Time(u.init)})
+		res.NextKeyMarker, res.NextUploadIdMarker = u.key, u.id
 	}
 	return res, nil
+}
+func (d *c25Double) findVer(key, id string) (int, *c25Ver) {
+	for i, v := range d.vers {
+		if v.key == key && v.id == id {
+			return i, v
+		}
+	}
+	return -1, nil
+}
+func (d *c25Double) findObj(key string) (int, *c25Obj) {
+	for i, o := range d.objs {
+		if o.key == key {
+			return i, o
+		}
+	}
+	return -1, nil
 }
 func (d *c25Double) GetObjectTagging(_ context.Context, _ storage.BucketName, key storage.ObjectKey, opts *storage.ObjectTaggingOptions) (map[string]string, error) {
 	if opts != nil && opts.VersionID != nil {
-		for _, v := range d.vers {
-			if v.key == key.String() && v.id == *opts.VersionID {
-				return c25TagMap(v.tags), nil
-			}
+		if _, v := d.findVer(key.String(), *opts.VersionID); v != nil {
+			return c25TagMap(v.tags), nil
 		}
 		return map[string]string{}, nil
 	}
-	for _, o := range d.objs {
-		if o.key == key.String() {
-			return c25TagMap(o.tags), nil
-		}
+	if _, o := d.findObj(key.String()); o != nil {
+		return c25TagMap(o.tags), nil
 	}
 	return nil, storage.ErrNoSuchKey
 }
 
-// a concurrent PUT that lands between the listing and the guarded call
-func (o *c25Obj) applySwap() {
+// the other client's operation lands before the guarded call is evaluated; false: the key is gone
+func (d *c25Double) clientOp(i int, o *c25Obj) bool {
+	if o.gone {
+		d.objs = append(append([]*c25Obj{}, d.objs[:i]...), d.objs[i+1:]...)
+		return false
+	}
 	if o.swap {
 		o.etag, o.lm, o.swap = o.swapEtag, o.swapLm, false
 	}
+	return true
+}
+func (v *c25Ver) applySwap() {
+	if v.swap {
+		v.etag, v.lm, v.swap, v.latest, v.dm = v.swapEtag, v.swapLm, false, true, false
+	}
+}
+func c25Guard(p *string) string {
+	if p == nil {
+		return "<none>"
+	}
+	return tokBytes(*p)
 }
 func (d *c25Double) DeleteObject(_ context.Context, _ storage.BucketName, key storage.ObjectKey, opts *storage.DeleteObjectOptions) (*storage.DeleteObjectResult, error) {
 	if opts != nil && opts.VersionID != nil {
-		d.actions = append(d.actions, "V:"+tokBytes(key.String())+":"+tokBytes(*opts.VersionID))
-		var rest []c25Ver
-		for _, v := range d.vers {
-			if !(v.key == key.String() && v.id == *opts.VersionID) {
-				rest = append(rest, v)
+		i, v := d.findVer(key.String(), *opts.VersionID)
+		if v == nil {
+			return nil, storage.ErrNoSuchKey
+		}
+		if opts.IfMatchETag != nil { // (the unchanged reconciler sends no guard here; a repaired one may)
+			v.applySwap()
+			if v.dm || v.etag != *opts.IfMatchETag {
+				d.actions = append(d.actions, "V:"+tokBytes(v.key)+":"+tokBytes(v.id)+":412")
+				return nil, storage.ErrPreconditionFailed
 			}
 		}
-		d.vers = rest
-		return &storage.DeleteObjectResult{}, nil
+		d.actions = append(d.actions, "V:"+tokBytes(v.key)+":"+tokBytes(v.id)+":"+c06Bool(v.swap))
+		d.vers = append(append([]*c25Ver{}, d.vers[:i]...), d.vers[i+1:]...)
+		return &storage.DeleteObjectResult{VersionID: opts.VersionID}, nil
 	}
-	for i, o := range d.objs {
-		if o.key != key.String() {
-			continue
-		}
-		o.applySwap()
-		if opts != nil && opts.IfMatchETag != nil && *opts.IfMatchETag != o.etag {
-			d.actions = append(d.actions, "D:"+tokBytes(o.key)+":"+tokBytes(*opts.IfMatchETag)+":0")
-			return nil, storage.ErrPreconditionFailed
-		}
-		guard := "<none>"
-		if opts != nil && opts.IfMatchETag != nil {
-			guard = tokBytes(*opts.IfMatchETag)
-		}
-		d.actions = append(d.actions, "D:"+tokBytes(o.key)+":"+guard+":1")
-		d.objs = append(append([]*c25Obj{}, d.objs[:i]...), d.objs[i+1:]...)
-		return &storage.DeleteObjectResult{}, nil
+	var im *string
+	if opts != nil {
+		im = opts.IfMatchETag
 	}
-	return nil, storage.ErrNoSuchKey
+	i, o := d.findObj(key.String())
+	if o == nil {
+		d.actions = append(d.actions, "D:"+tokBytes(key.String())+":"+c25Guard(im)+":0")
+		return nil, storage.ErrNoSuchKey
+	}
+	if !d.clientOp(i, o) {
+		d.actions = append(d.actions, "D:"+tokBytes(o.key)+":"+c25Guard(im)+":0")
+		return nil, storage.ErrNoSuchKey
+	}
+	if im != nil && *im != o.etag {
+		d.actions = append(d.actions, "D:"+tokBytes(o.key)+":"+c25Guard(im)+":0")
+		return nil, storage.ErrPreconditionFailed
+	}
+	d.actions = append(d.actions, "D:"+tokBytes(o.key)+":"+c25Guard(im)+":1")
+	d.objs = append(append([]*c25Obj{}, d.objs[:i]...), d.objs[i+1:]...)
+	return &storage.DeleteObjectResult{}, nil
 }
 func (d *c25Double) TransitionObjectStorageClass(_ context.Context, _ storage.BucketName, key storage.ObjectKey, target string, opts *storage.TransitionObjectStorageClassOptions) error {
+	var im *string
+	if opts != nil {
+		im = opts.IfMatchETag
+	}
 	if opts != nil && opts.VersionID != nil {
-		d.actions = append(d.actions, "TV:"+tokBytes(key.String())+":"+tokBytes(*opts.VersionID)+":"+tokBytes(target))
+		_, v := d.findVer(key.String(), *opts.VersionID)
+		if v == nil {
+			return storage.ErrNoSuchKey
+		}
+		v.applySwap()
+		pre := "W:" + tokBytes(v.key) + ":" + tokBytes(v.id) + ":" + tokBytes(target) + ":" + c25Guard(im)
+		if im != nil && *im != v.etag {
+			d.actions = append(d.actions, pre+":0")
+			return storage.ErrPreconditionFailed
+		}
+		d.actions = append(d.actions, pre+":1")
+		v.class = target
 		return nil
 	}
-	for _, o := range d.objs {
-		if o.key != key.String() {
-			continue
-		}
-		o.applySwap()
-		guard := "<none>"
-		if opts != nil && opts.IfMatchETag != nil {
-			guard = tokBytes(*opts.IfMatchETag)
-			if *opts.IfMatchETag != o.etag {
-				d.actions = append(d.actions, "T:"+tokBytes(o.key)+":"+tokBytes(target)+":"+guard+":0")
-				return storage.ErrPreconditionFailed
-			}
-		}
-		d.actions = append(d.actions, "T:"+tokBytes(o.key)+":"+tokBytes(target)+":"+guard+":1")
-		o.class = target
-		return nil
+	pre := "T:" + tokBytes(key.String()) + ":" + tokBytes(target) + ":" + c25Guard(im)
+	i, o := d.findObj(key.String())
+	if o == nil || !d.clientOp(i, o) {
+		d.actions = append(d.actions, pre+":0")
+		return storage.ErrNoSuchKey
 	}
-	return storage.ErrNoSuchKey
+	if im != nil && *im != o.etag {
+		d.actions = append(d.actions, pre+":0")
+		return storage.ErrPreconditionFailed
+	}
+	d.actions = append(d.actions, pre+":1")
+	o.class = target
+	return nil
 }
 func (d *c25Double) AbortMultipartUpload(_ context.Context, _ storage.BucketName, key storage.ObjectKey, id storage.UploadId) error {
 	d.actions = append(d.actions, "A:"+tokBytes(key.String())+":"+tokBytes(id.String()))
@@ -456,79 +594,188 @@ func c25GenRule(r *Rng, now int64) string {
 	if r.Chance(25) {
 		ab = c25P(int64(1 + r.Intn(3)))
 	}
-	return strings.Join([]string{en, shape, prefix, c25ShowTags(tags), c25N(gt), c25N(lt), c25N(ed), c25N(edt), edm, tr, c25N(nd), c25N(nn), c25N(ab)}, "/")
+	var ncts []string
+	for r.Chance(22) && len(ncts) < 2 {
+		var d, nw *int64
+		if r.Chance(92) {
+			d = c25P(int64(1 + r.Intn(3)))
+		}
+		if r.Chance(40) {
+			nw = c25P(int64(r.Intn(3)))
+		}
+		ncts = append(ncts, c25N(d)+":"+c25N(nw)+":"+tokBytes(r.Pick(c25Classes)))
+	}
+	nct := "_"
+	if len(ncts) > 0 {
+		nct = strings.Join(ncts, ",")
+	}
+	return strings.Join([]string{en, shape, prefix, c25ShowTags(tags), c25N(gt), c25N(lt), c25N(ed), c25N(edt), edm, tr, c25N(nd), c25N(nn), nct, c25N(ab)}, "/")
 }
 
-func (c25) Gen(r *Rng, tier string, n int) []string {
-	cases := make([]string, 0, n)
-	for len(cases) < n {
-		now := int64(c25Base) + int64(r.Intn(4))*c25Day + []int64{0, 1, 43200, 86399, int64(r.Intn(c25Day))}[r.Intn(5)]
-		nr := 1 + r.Intn(4)
-		rules := make([]string, nr)
-		for i := range rules {
-			rules[i] = c25GenRule(r, now)
+var c25MoreKeys = []string{"a", "a/1", "a/2", "b", "log", "c", "A", "a/3", "b/1", "d", "e", "lo"}
+
+func c25J(l []string) string {
+	if len(l) == 0 {
+		return "~"
+	}
+	return strings.Join(l, "|")
+}
+
+// the version stack of one key: recency order with ties/perturbations, one latest, delete markers (often: a
+// current delete marker over older data versions), optionally a null version whose id is reused by a
+// concurrent overwrite
+func c25GenStack(r *Rng, now int64, k string, nv int) []string {
+	lms := make([]int64, nv)
+	for i := range lms {
+		lms[i] = c25Past(r, now)
+		if i > 0 && r.Chance(15) {
+			lms[i] = lms[i-1] // tie
 		}
-		var objs []string
-		seen := map[string]bool{}
-		for i := r.Intn(5); i > 0; i-- {
-			k := r.Pick(c25Keys)
-			if seen[k] {
-				continue
-			}
-			seen[k] = true
-			etag := r.Pick([]string{"e1", "e2"})
-			swap := "N"
-			if r.Chance(14) {
+	}
+	if r.Chance(80) {
+		sort.Slice(lms, func(i, j int) bool { return lms[i] > lms[j] })
+	}
+	latest := 0
+	if r.Chance(10) {
+		latest = r.Intn(nv)
+	}
+	allDM := r.Chance(12)
+	topDM := r.Chance(30)
+	nullAt := -1
+	if r.Chance(25) {
+		nullAt = r.Intn(nv)
+	}
+	var out []string
+	for i := 0; i < nv; i++ {
+		dm := allDM || r.Chance(10) || (topDM && i == latest)
+		id := "v" + strconv.Itoa(i)
+		swap := "N"
+		etag := r.Pick([]string{"e1", "e2"})
+		if i == nullAt {
+			id = "null"
+			if r.Chance(60) {
 				e2 := etag
 				if r.Chance(50) {
 					e2 = "e9"
 				}
 				swap = tokBytes(e2) + ":" + strconv.FormatInt(now-int64(r.Intn(3600)), 10)
 			}
+		}
+		out = append(out, strings.Join([]string{tokBytes(k), tokBytes(id), c06Bool(i == latest), c06Bool(dm),
+			strconv.FormatInt(lms[i], 10), strconv.Itoa(r.Intn(11)), c25ShowTags(c25GenTags(r, 30)),
+			tokBytes(etag), tokBytes(r.Pick([]string{"", "", "STANDARD_IA", "GLACIER"})), swap}, "/"))
+	}
+	return out
+}
+
+// > 1000 entries with the storage's full page size: the page boundary falls inside a key's version stack
+// (between a current delete marker and the data version under it, between counted noncurrent versions,
+// between two keys), resp. inside the object / upload listing
+func c25GenBig(r *Rng, now int64) string {
+	old := now - 9*c25Day
+	var rules, objs, vers, upls []string
+	switch r.Intn(3) {
+	case 0: // versions: filler key "a" (noncurrent versions, nothing due for prefix b), then the stack of "b" across the boundary
+		rules = []string{"1/P/S62/_/N/N/N/N/1/_/1/" + r.Pick([]string{"N", "1", "2"}) + "/1:N:" + tokBytes("GLACIER") + "/N"}
+		fill := 996 + r.Intn(6)
+		for i := 0; i < fill; i++ {
+			vers = append(vers, strings.Join([]string{tokBytes("a"), tokBytes("f" + strconv.Itoa(i)), c06Bool(i == 0), "0",
+				strconv.FormatInt(old-int64(i), 10), "1", "_", tokBytes("e1"), "-", "N"}, "/"))
+		}
+		top := r.Intn(3) // 0: current delete marker over data versions, 1: all delete markers, 2: data only
+		for i := 0; i < 2+r.Intn(5); i++ {
+			dm := (top == 0 && i == 0) || top == 1
+			vers = append(vers, strings.Join([]string{tokBytes("b"), tokBytes("v" + strconv.Itoa(i)), c06Bool(i == 0), c06Bool(dm),
+				strconv.FormatInt(old-int64(i*c25Day), 10), "1", "_", tokBytes("e1"), "-", "N"}, "/"))
+		}
+		vers = append(vers, c25GenStack(r, now, "c", 1+r.Intn(3))...)
+	case 1: // objects: 1003 current objects, every third due
+		rules = []string{"1/P/S6f/_/N/N/2/N/N/4:N:" + tokBytes("GLACIER") + "/N/N/_/N"}
+		for i := 0; i < 1000+r.Intn(6); i++ {
+			lm := now - 3600
+			if i%3 == 0 || i >= 998 {
+				lm = old
+			}
+			objs = append(objs, strings.Join([]string{tokBytes(fmt.Sprintf("o%04d", i)), "1", "_", strconv.FormatInt(lm, 10), tokBytes("e1"), "-", "N"}, "/"))
+		}
+	default: // uploads
+		rules = []string{"1/P/S75/_/N/N/N/N/N/_/N/N/_/1"}
+		for i := 0; i < 1000+r.Intn(6); i++ {
+			in := now - 3600
+			if i%4 == 0 || i >= 997 {
+				in = old
+			}
+			upls = append(upls, strings.Join([]string{tokBytes(fmt.Sprintf("u%02d", i%7)), tokBytes(fmt.Sprintf("id%04d", i)), strconv.FormatInt(in, 10)}, "/"))
+		}
+	}
+	return strings.Join([]string{strconv.FormatInt(now, 10), "0", c25J(rules), c25J(objs), c25J(vers), c25J(upls)}, " ")
+}
+
+func (c25) Gen(r *Rng, tier string, n int) []string {
+	cases := make([]string, 0, n)
+	big := 3
+	if tier == "thorough" {
+		big = 25
+	}
+	for len(cases) < n {
+		now := int64(c25Base) + int64(r.Intn(4))*c25Day + []int64{0, 1, 43200, 86399, int64(r.Intn(c25Day))}[r.Intn(5)]
+		if big > 0 && len(cases)%97 == 5 {
+			big--
+			cases = append(cases, c25GenBig(r, now))
+			continue
+		}
+		nr := 1 + r.Intn(4)
+		rules := make([]string, nr)
+		for i := range rules {
+			rules[i] = c25GenRule(r, now)
+		}
+		// page size of the storage: mostly tiny, so that every listing of the sweep spans several pages and
+		// the boundaries fall everywhere inside the stacks; 0 = the reconciler's own MaxKeys
+		pg := []int{0, 1, 1, 2, 2, 3, 3, 4, 6}[r.Intn(9)]
+		var objs []string
+		seen := map[string]bool{}
+		for i := r.Intn(7); i > 0; i-- {
+			k := r.Pick(c25MoreKeys)
+			if seen[k] {
+				continue
+			}
+			seen[k] = true
+			etag := r.Pick([]string{"e1", "e2"})
+			client := "N"
+			switch k := r.Intn(100); {
+			case k < 14: // concurrent PUT, same or different bytes
+				e2 := etag
+				if r.Chance(50) {
+					e2 = "e9"
+				}
+				client = tokBytes(e2) + ":" + strconv.FormatInt(now-int64(r.Intn(3600)), 10)
+			case k < 19: // concurrent DELETE
+				client = "X"
+			}
 			objs = append(objs, strings.Join([]string{tokBytes(k), strconv.Itoa(r.Intn(11)), c25ShowTags(c25GenTags(r, 40)),
-				strconv.FormatInt(c25Past(r, now), 10), tokBytes(etag), tokBytes(r.Pick([]string{"", "", "STANDARD", "STANDARD_IA", "GLACIER"})), swap}, "/"))
+				strconv.FormatInt(c25Past(r, now), 10), tokBytes(etag), tokBytes(r.Pick([]string{"", "", "STANDARD", "STANDARD_IA", "GLACIER"})), client}, "/"))
 		}
 		var vers []string
 		vseen := map[string]bool{}
-		for kk := r.Intn(3); kk > 0; kk-- {
-			k := r.Pick(c25Keys)
+		for kk := r.Intn(4); kk > 0; kk-- {
+			k := r.Pick(c25MoreKeys)
 			if vseen[k] {
 				continue
 			}
 			vseen[k] = true
-			nv := 1 + r.Intn(5)
-			lms := make([]int64, nv)
-			for i := range lms {
-				lms[i] = c25Past(r, now)
-				if i > 0 && r.Chance(15) {
-					lms[i] = lms[i-1] // tie
-				}
-			}
-			if r.Chance(80) {
-				sort.Slice(lms, func(i, j int) bool { return lms[i] > lms[j] })
-			}
-			latest := 0
-			if r.Chance(12) {
-				latest = r.Intn(nv)
-			}
-			allDM := r.Chance(15)
-			for i := 0; i < nv; i++ {
-				dm := allDM || r.Chance(15)
-				vers = append(vers, strings.Join([]string{tokBytes(k), tokBytes("v" + strconv.Itoa(i)), c06Bool(i == latest), c06Bool(dm),
-					strconv.FormatInt(lms[i], 10), strconv.Itoa(r.Intn(11)), c25ShowTags(c25GenTags(r, 30))}, "/"))
-			}
+			vers = append(vers, c25GenStack(r, now, k, 1+r.Intn(6))...)
 		}
 		var upls []string
-		for i := r.Intn(3); i > 0; i-- {
-			upls = append(upls, strings.Join([]string{tokBytes(r.Pick(c25Keys)), tokBytes("u" + strconv.Itoa(i)), strconv.FormatInt(c25Past(r, now), 10)}, "/"))
-		}
-		j := func(l []string) string {
-			if len(l) == 0 {
-				return "~"
+		useen := map[string]bool{}
+		for i := r.Intn(5); i > 0; i-- {
+			u := strings.Join([]string{tokBytes(r.Pick(c25Keys)), tokBytes("u" + strconv.Itoa(r.Intn(4)))}, "/")
+			if useen[u] {
+				continue
 			}
-			return strings.Join(l, "|")
+			useen[u] = true
+			upls = append(upls, u+"/"+strconv.FormatInt(c25Past(r, now), 10))
 		}
-		cases = append(cases, strings.Join([]string{strconv.FormatInt(now, 10), j(rules), j(objs), j(vers), j(upls)}, " "))
+		cases = append(cases, strings.Join([]string{strconv.FormatInt(now, 10), strconv.Itoa(pg), c25J(rules), c25J(objs), c25J(vers), c25J(upls)}, " "))
 	}
 	return cases
 }
@@ -584,41 +831,75 @@ func c25ExpirationDue(rules []c25Rule, now int64, key string, size int64, tags m
 }
 
 var c25Quiet sync.Once
+var c25Hung atomic.Bool
 
 func (c25) Run(in string, scratch string) Result {
 	// the reconciler logs every action at Info level; thousands of sweeps would spend their time there
 	c25Quiet.Do(func() { slog.SetDefault(slog.New(slog.NewTextHandler(io.Discard, nil))) })
 	f := strings.Split(in, " ")
 	now := c25I(f[0])
+	pg, _ := strconv.Atoi(f[1])
 	var rules []c25Rule
 	cfg := &storage.BucketLifecycleConfiguration{}
-	for _, t := range c25Items(f[1]) {
+	for _, t := range c25Items(f[2]) {
 		r := c25ParseRule(t)
 		rules = append(rules, r)
 		cfg.Rules = append(cfg.Rules, c25Build(r))
 	}
-	d := &c25Double{DelegatingStorage: delegator.Wrap(nil), config: cfg}
+	d := &c25Double{DelegatingStorage: delegator.Wrap(nil), config: cfg, page: pg}
 	orig := map[string]c25Obj{}
-	for _, t := range c25Items(f[2]) {
+	for _, t := range c25Items(f[3]) {
 		o := c25ParseObj(t)
 		orig[o.key] = *o
 		d.objs = append(d.objs, o)
 	}
+	sort.SliceStable(d.objs, func(i, j int) bool { return d.objs[i].key < d.objs[j].key })
 	var vers []c25Ver
-	for _, t := range c25Items(f[3]) {
-		vers = append(vers, c25ParseVer(t))
-	}
-	d.vers = append([]c25Ver{}, vers...)
-	var upls []c25Upl
 	for _, t := range c25Items(f[4]) {
+		v := c25ParseVer(t)
+		vers = append(vers, v)
+		c := v
+		d.vers = append(d.vers, &c)
+	}
+	var upls []c25Upl
+	for _, t := range c25Items(f[5]) {
 		upls = append(upls, c25ParseUpl(t))
 	}
 	d.upls = append([]c25Upl{}, upls...)
+	sort.SliceStable(d.upls, func(i, j int) bool {
+		if d.upls[i].key != d.upls[j].key {
+			return d.upls[i].key < d.upls[j].key
+		}
+		return d.upls[i].id < d.upls[j].id
+	})
 
 	mw := lifecyclereconciler.NewStorageMiddleware(d, lifecyclereconciler.WithNow(func() time.Time { return c25Time(now) }), lifecyclereconciler.WithReconcileInterval(0))
-	mw.(interface {
-		ReconcileOnce(context.Context, *atomic.Bool)
-	}).ReconcileOnce(context.Background(), nil)
+	// a sweep that does not end (a paging loop that never advances its marker) is stopped through the
+	// reconciler's own cancellation flag and reported
+	var cancel atomic.Bool
+	finished := make(chan struct{})
+	go func() {
+		defer close(finished)
+		mw.(interface {
+			ReconcileOnce(context.Context, *atomic.Bool)
+		}).ReconcileOnce(context.Background(), &cancel)
+	}()
+	hung := false
+	limit := 20 * time.Second
+	if c25Hung.Load() { // once a sweep hung in this process, do not wait that long again
+		limit = 2 * time.Second
+	}
+	select {
+	case <-finished:
+	case <-time.After(limit):
+		hung = true
+		c25Hung.Store(true)
+		cancel.Store(true)
+		<-finished
+	}
+	if hung {
+		return Result{Out: "TIMEOUT", Oracle: "FAIL:the sweep does not terminate", Tags: []string{"timeout"}}
+	}
 
 	acts := append([]string{}, d.actions...)
 	sort.Strings(acts)
@@ -633,6 +914,31 @@ func (c25) Run(in string, scratch string) Result {
 		if oracle == "OK" {
 			oracle = "FAIL:" + fmt.Sprintf(format, a...)
 		}
+	}
+	// the whole version stack of a key, as given (never a page of it)
+	stack := func(key string) []c25Ver {
+		var same []c25Ver
+		for _, v := range vers {
+			if v.key == key {
+				same = append(same, v)
+			}
+		}
+		return same
+	}
+	// noncurrent-since and number of newer noncurrent versions of v within its whole stack (lenient towards ties)
+	recency := func(v c25Ver) (since int64, have bool, newer int64) {
+		for _, w := range stack(v.key) {
+			if w.id == v.id || w.lm < v.lm {
+				continue
+			}
+			if !have || w.lm < since {
+				since, have = w.lm, true
+			}
+			if !w.latest && !w.dm {
+				newer++
+			}
+		}
+		return
 	}
 	for _, a := range acts {
 		p := strings.Split(a, ":")
@@ -655,6 +961,10 @@ func (c25) Run(in string, scratch string) Result {
 			if !okFlag {
 				kinds["PF"] = true
 				continue // nothing happened to the data
+			}
+			if o.gone {
+				fail("%s of %q succeeded although the key had been deleted by another client", p[0], key)
+				continue
 			}
 			cur := o // the object the call actually acted on
 			if o.swap {
@@ -693,23 +1003,45 @@ func (c25) Run(in string, scratch string) Result {
 					fail("object %q transitioned although it is due for expiration", key)
 				}
 			}
-		case "V":
+		case "V", "W":
 			key, id := untokBytes(p[1]), untokBytes(p[2])
 			var v *c25Ver
-			var same []c25Ver
-			for i := range vers {
-				if vers[i].key == key {
-					same = append(same, vers[i])
-					if vers[i].id == id {
-						v = &vers[i]
-					}
+			same := stack(key)
+			for i := range same {
+				if same[i].id == id {
+					v = &same[i]
 				}
 			}
 			if v == nil {
-				fail("deleted unknown version %q %q", key, id)
+				fail("%s on unknown version %q %q", p[0], key, id)
 				continue
 			}
+			if p[0] == "V" && p[3] == "412" {
+				kinds["PF"] = true
+				continue // refused by a guard: nothing happened
+			}
+			if p[0] == "V" && p[3] == "1" {
+				fail("version %q %q: the generation removed is not the one that was listed (the id was reused by a %d-second-old overwrite)", key, id, now-v.swapLm)
+				continue
+			}
+			if p[0] == "W" {
+				if p[5] != "1" {
+					kinds["PF"] = true
+					continue
+				}
+				if p[4] != tokBytes(v.etag) {
+					fail("transition of version %q %q not guarded by the listed ETag", key, id)
+				}
+				if v.swap {
+					fail("version %q %q: the generation transitioned is not the one that was listed (identical re-upload %d s ago)", key, id, now-v.swapLm)
+					continue
+				}
+			}
 			if v.dm {
+				if p[0] == "W" {
+					fail("delete marker %q %q transitioned", key, id)
+					continue
+				}
 				only := true
 				for _, w := range same {
 					if !w.dm {
@@ -723,46 +1055,39 @@ func (c25) Run(in string, scratch string) Result {
 					}
 				}
 				if !v.latest || !only || !just {
-					fail("delete marker %q %q removed (latest=%v only-markers=%v rule=%v)", key, id, v.latest, only, just)
+					fail("delete marker %q %q removed (latest=%v, the key's whole stack holds only delete markers=%v, rule=%v)", key, id, v.latest, only, just)
 				}
 				continue
 			}
 			if v.latest {
-				fail("current version %q %q deleted by noncurrent expiration", key, id)
+				fail("current version %q %q touched by a noncurrent-version action", key, id)
 				continue
 			}
-			since, have := int64(0), false
-			newer := int64(0)
-			for _, w := range same {
-				if w.id == v.id || w.lm < v.lm {
-					continue
-				}
-				if !have || w.lm < since {
-					since, have = w.lm, true
-				}
-				if !w.latest && !w.dm {
-					newer++
-				}
-			}
+			since, have, newer := recency(*v)
 			if !have {
-				fail("version %q %q has no successor but was expired as noncurrent", key, id)
+				fail("version %q %q has no successor but was treated as noncurrent", key, id)
 				continue
 			}
 			just := false
 			for _, r := range rules {
-				if !r.enabled || r.ncDays == nil || !c25Applies(r, key, v.size, c25TagMap(v.tags)) {
+				if !r.enabled || !c25Applies(r, key, v.size, c25TagMap(v.tags)) {
 					continue
 				}
-				if now < c25S3RoundUp(since+*r.ncDays*c25Day) {
-					continue
+				if p[0] == "V" {
+					if r.ncDays == nil || now < c25S3RoundUp(since+*r.ncDays*c25Day) || (r.ncNewer != nil && newer < *r.ncNewer) {
+						continue
+					}
+					just = true
+				} else {
+					for _, t := range r.nct {
+						if t.class == untokBytes(p[3]) && t.days != nil && now >= c25S3RoundUp(since+*t.days*c25Day) && (t.newer == nil || newer >= *t.newer) {
+							just = true
+						}
+					}
 				}
-				if r.ncNewer != nil && newer < *r.ncNewer {
-					continue
-				}
-				just = true
 			}
 			if !just {
-				fail("noncurrent version %q %q (noncurrent since %d, %d newer noncurrent) expired at %d without a due matching rule", key, id, since, newer, now)
+				fail("noncurrent version %q %q (noncurrent since %d, %d newer noncurrent in the whole stack) %s at %d without a due matching rule", key, id, since, newer, map[string]string{"V": "expired", "W": "transitioned to " + untokBytes(p[3])}[p[0]], now)
 			}
 		case "A":
 			key, id := untokBytes(p[1]), untokBytes(p[2])
@@ -784,7 +1109,7 @@ func (c25) Run(in string, scratch string) Result {
 			fail("unexpected call %s", a)
 		}
 	}
-	for _, k := range []string{"D", "T", "V", "A", "PF"} {
+	for _, k := range []string{"D", "T", "V", "W", "A", "PF"} {
 		if kinds[k] {
 			tags = append(tags, "act-"+k)
 		}
@@ -792,7 +1117,13 @@ func (c25) Run(in string, scratch string) Result {
 	if len(acts) == 0 {
 		tags = append(tags, "no-action")
 	}
-	swapSame, swapAny := false, false
+	if d.lists > 6 {
+		tags = append(tags, "multi-page")
+	}
+	if len(vers)+len(orig)+len(upls) > 1000 {
+		tags = append(tags, "big")
+	}
+	swapSame, swapAny, vswap, gone := false, false, false, false
 	for _, o := range orig {
 		if o.swap {
 			swapAny = true
@@ -800,12 +1131,27 @@ func (c25) Run(in string, scratch string) Result {
 				swapSame = true
 			}
 		}
+		gone = gone || o.gone
 	}
-	if swapAny {
-		tags = append(tags, "swap")
+	for _, v := range vers {
+		if v.swap {
+			vswap = true
+			if v.swapEtag == v.etag {
+				swapSame = true
+			}
+		}
+	}
+	if swapAny || vswap {
+		tags = append(tags, "replaced")
+	}
+	if gone {
+		tags = append(tags, "client-delete")
 	}
 	if swapSame {
 		tags = append(tags, "kf:C25-etag-guard-identical-reupload")
+	}
+	if vswap {
+		tags = append(tags, "kf:C25-version-id-delete-unguarded")
 	}
 	return Result{Out: out, Oracle: oracle, Tags: tags}
 }
